@@ -482,10 +482,36 @@ pub fn run_find_prebuilt(sc: &FindScenario, ctx: &mut Ctx, root: PathBuf) -> Fin
         ambient.env.clear();
     }
     let guard = ambient.enter();
-    let (status, stderr) = ctx.run_guarded(Box::new(world), move || {
-        let refs: Vec<&str> = argv.iter().map(|s| s.as_str()).collect();
-        findutils::find::find_main(&refs, &deps)
-    });
+    let (status, stderr) = if ambient.env.iter().any(|(k, _)| k == "TZ") {
+        // libraries cache the time zone per thread for a second of real time: with TZ set, find
+        // runs on a thread of its own, so that what it sees is this run's TZ (as a fresh process
+        // replaying the scenario will) and never an earlier run's
+        struct AssertSend<T>(T);
+        unsafe impl<T> Send for AssertSend<T> {}
+        let mut out = None;
+        let pack = AssertSend((&mut *ctx, &mut out, world, argv, deps));
+        std::thread::scope(|s| {
+            std::thread::Builder::new()
+                .stack_size(64 << 20)
+                .spawn_scoped(s, move || {
+                    let pack = pack;
+                    let AssertSend((ctx_ref, out_ref, world, argv, deps)) = pack;
+                    *out_ref = Some(ctx_ref.run_guarded(Box::new(world), move || {
+                        let refs: Vec<&str> = argv.iter().map(|s| s.as_str()).collect();
+                        findutils::find::find_main(&refs, &deps)
+                    }));
+                })
+                .expect("thread for a run with TZ")
+                .join()
+                .expect("thread for a run with TZ ended");
+        });
+        out.expect("run result")
+    } else {
+        ctx.run_guarded(Box::new(world), move || {
+            let refs: Vec<&str> = argv.iter().map(|s| s.as_str()).collect();
+            findutils::find::find_main(&refs, &deps)
+        })
+    };
     drop(guard);
     // real children: compare their log with the seam's record while still in find's working
     // directory (the directories are looked up the way the children reached them)
